@@ -6,7 +6,25 @@ impl SequentialScope {
     where
         F: FnOnce(&SequentialScope) + Send,
     {
+        #[cfg(fontc_verif)]
+        if fontdrasil::verif::active() {
+            let boxed: Box<dyn FnOnce() + Send + '_> = Box::new(move || {
+                let s = std::mem::ManuallyDrop::new(SequentialScope);
+                func(&s)
+            });
+            // SAFETY: Drop for SequentialScope joins every task before exec returns
+            let boxed: Box<dyn FnOnce() + Send + 'static> = unsafe { std::mem::transmute(boxed) };
+            fontdrasil::verif::spawn(boxed);
+            return;
+        }
         // Execute immediately instead of spawning a thread
         func(self);
+    }
+}
+
+#[cfg(fontc_verif)]
+impl Drop for SequentialScope {
+    fn drop(&mut self) {
+        fontdrasil::verif::join_all();
     }
 }
